@@ -23,6 +23,7 @@ import MocVerif.Lemmas.Cells
 import MocVerif.Lemmas.CodecMoc
 import MocVerif.Lemmas.Text
 import MocVerif.Lemmas.Fits
+import MocVerif.Lemmas.FitsRead
 import MocVerif.Props.C05
 
 namespace Moc.Codec.C07
@@ -456,6 +457,45 @@ theorem fits_nuniq_file (w depth : Nat) (uniqs : List Nat) (hd : depth ≤ 255)
     readWords (nuniqFile w depth uniqs) = some (w / 8, uniqs.length, uniqs) :=
   ⟨fileOf_blocks w _ _ (nuniqCards_80 w depth hd) (by simp [nuniqCards]) hw hn,
    (fileOf_words w _ _ (nuniqCards_80 w depth hd) (by simp [nuniqCards]) hw hn hfit).1⟩
+
+/-- The dimension name written in `MOCDIM` for each quantity. -/
+def dimOf (q : Qty) : List Char :=
+  if q.name == "HPX" then ['S', 'P', 'A', 'C', 'E'] else if q.name == "TIME" then ['T', 'I', 'M', 'E']
+  else ['F', 'R', 'E', 'Q', 'U', 'E', 'N', 'C', 'Y']
+
+/-- **The FITS file read back, header included**: for the three quantities, every index width, depth and list
+    of ranges whose bounds fit the index type, the values the reader extracts from the table header of the file
+    written — `NAXIS1`, `NAXIS2`, `MOCDIM`, `ORDERING`, the depth card of the dimension (`MOCORD_S|T|F`),
+    `TFORM1` — are the ones of the MOC, and the `NAXIS1 × NAXIS2` data bytes decode to exactly its ranges:
+    same quantity, same maximum depth, same set. -/
+theorem fits_file_roundtrip (q : Qty) (hq : q = Params.hpx ∨ q = Params.time ∨ q = Params.freq) (w depth : Nat)
+    (rs : List Rng) (hd : depth ≤ 255) (hw : w / 8 < 10 ^ 20) (hn : rs.length <<< 1 < 10 ^ 20)
+    (hfit : ∀ r ∈ rs, r.1 < 256 ^ (w / 8) ∧ r.2 < 256 ^ (w / 8)) :
+    decodeRangeFile (rangeFile q w depth rs) =
+      some ({ naxis1 := w / 8, naxis2 := rs.length <<< 1, dim := dimOf q, ordering := ['R', 'A', 'N', 'G', 'E'],
+              depth := depth, tform := tform w }, rs) := by
+  obtain ⟨hb, hdata⟩ := rangeFile_parts q w depth rs hd hw hn
+  have hh : decodeHdr (block (tableCards q w depth rs.length)) =
+      some { naxis1 := w / 8, naxis2 := rs.length <<< 1, dim := dimOf q, ordering := ['R', 'A', 'N', 'G', 'E'],
+             depth := depth, tform := tform w } := by
+    rcases hq with rfl | rfl | rfl
+    · exact decodeHdr_hpx _ w depth rs.length (by decide) hd hw hn
+    · exact decodeHdr_time _ w depth rs.length (by decide) (by decide) hd hw hn
+    · exact decodeHdr_freq _ w depth rs.length (by decide) (by decide) hd hw hn
+  unfold decodeRangeFile
+  rw [hb, hh]
+  simp only [Option.bind_eq_bind, Option.bind_some, hdata]
+  have hwl : (encodeWords rs).length = rs.length <<< 1 := by
+    rw [encodeWords_length, Nat.shiftLeft_eq, Nat.pow_one, Nat.mul_comm]
+  have hwords := wordsOf_flatMap (w / 8) (encodeWords rs) (by
+    intro x hx
+    obtain ⟨r, hr, h | h⟩ := mem_encodeWords rs x hx
+    · rw [h]; exact (hfit r hr).1
+    · rw [h]; exact (hfit r hr).2) []
+  rw [List.append_nil, hwl] at hwords
+  unfold dataUnit
+  rw [hwords, decodeWords_encodeWords]
+  rfl
 
 /-- Non-vacuity: the hypotheses hold for an S-MOC on 16 bits. -/
 example : readStructure (rangeFile Params.hpx 16 4 [(16, 96), (112, 128)]) = some (2, 4, [(16, 96), (112, 128)]) :=
